@@ -60,7 +60,7 @@ def exact_records(rnd, tier):
                                 recs.append(dict(kind="tok", dmax=[core.ULP_CAP], dmin=[0], dtv=[0], finite=0, model=mk, recon=recon,
                                                  integ=integ, cfl=cfl, n=n, data=list(d)))
                                 continue
-                            if not all(F(float(v)).denominator <= 1024 and abs(F(float(v)).numerator) <= 2 ** 14 for x in fields for v in x):
+                            if not all(F(float(v)).denominator <= 256 and abs(F(float(v)).numerator) <= 2 ** 12 for x in fields for v in x):
                                 recs.append(tok_of(fields, mk, recon, integ, cfl, n, list(d)))   # exact values too long for TLC's 32-bit integers
                                 continue
                             # TLC recomputes the step from each observed field (trace validation) while the numbers stay small
